@@ -468,6 +468,117 @@ def judge_mx(case):
     return out
 
 
+def run_mx_seq(seq, gap, concurrent=False):
+    """several attempts through ONE MxSmtpRelay object (its per-domain record cache lives across attempts): attempt k
+    sees resolver behaviour seq[k]; ``gap`` virtual seconds between attempts, or all at once with a slow resolver."""
+    import slimta.relay.smtp.mx as mx
+    from slimta.util.dns import DNSError
+    import pycares.errno as perr
+    from gevent.event import AsyncResult
+    from fakes.vsock import Net, VContext
+    from fakes.downstream import ScriptedPeer
+    connected = []
+    outcomes = []
+    phase = [0]
+    with World(Chooser(), max_steps=5000) as w:
+        net = Net(w)
+        R = types.SimpleNamespace
+
+        class Stub(object):
+            @classmethod
+            def query(cls, name, qtype):
+                r = AsyncResult()
+                how = seq[min(phase[0], len(seq) - 1)]
+
+                def answer():
+                    if how == 'mx3':
+                        if qtype == 'MX':
+                            r.set([R(priority=10, host='mx1.%s' % name, ttl=300)])
+                        else:
+                            r.set([R(host='192.0.2.1', ttl=300)])
+                    elif how == 'a-only':
+                        if qtype == 'MX':
+                            r.set_exception(DNSError(perr.ARES_ENODATA))
+                        else:
+                            r.set([R(host='192.0.2.1', ttl=300)])
+                    elif how == 'error':
+                        r.set_exception(DNSError(perr.ARES_ETIMEOUT))
+                    elif how == 'a-error':
+                        r.set_exception(DNSError(perr.ARES_ENODATA if qtype == 'MX' else perr.ARES_ESERVFAIL))
+                if concurrent:
+                    gevent.spawn_later(2.0, answer)          # the answer takes two (virtual) seconds
+                else:
+                    answer()
+                return r
+        w.patch(mx, 'DNSResolver', Stub)
+
+        def creator(address):
+            connected.append(address)
+            c, s_ = net.pair(peername=address)
+            gevent.spawn(ScriptedPeer(s_, {}).run)
+            return c
+        relay = mx.MxSmtpRelay(socket_creator=creator, ehlo_as='relay.test', context=VContext())
+
+        def one(k):
+            env = make_envelope(k, 1)
+            env.recipients = ['u%d@example.com' % k]
+            try:
+                o = ('returned', relay.attempt(env, 0))
+            except gevent.GreenletExit:
+                raise
+            except BaseException as e:
+                o = ('raised', e)
+            outcomes.append((k, classify(o, env)))
+
+        def driver():
+            for k in range(len(seq)):
+                phase[0] = k
+                if concurrent:
+                    gevent.spawn(one, k)
+                else:
+                    one(k)
+                    gevent.sleep(gap)
+        gevent.spawn(driver)
+        w.run_until_quiescent()
+    return sorted(outcomes), connected
+
+
+def judge_mx_seq(case):
+    seq, gap, concurrent = case
+    outcomes, connected = run_mx_seq(list(seq), gap, concurrent)
+    base = {'part': 'mx-sequence', 'concurrent': bool(concurrent)}
+    desc = 'one MxSmtpRelay, resolver behaviour per attempt %r, %s: outcomes %r' % (
+        list(seq), 'all attempts at once, answers after 2 s' if concurrent else '%g s between attempts' % gap, [(k, p) for k, (p, w_) in outcomes])
+    out = []
+    if len(outcomes) != len(seq):
+        return [(dict(base, kind='attempt-never-returned'), desc)]
+    cached = False
+    for k, (per, whole) in outcomes:
+        how = seq[k]
+        c = list(per.values())[0]
+        if whole.startswith('raised:other'):
+            out.append((dict(base, kind='non-relay-exception', exception=whole.split(':')[-1]), desc))
+            continue
+        if how in ('mx3', 'a-only') or cached:
+            if c != 'delivered':
+                out.append((dict(base, kind='routable-domain-not-delivered', resolver=how, attempt=k, reported=c), desc))
+            cached = True           # records with ttl 300 are good for the later attempts of this case
+        elif c != 'temp':
+            out.append((dict(base, kind='resolver-error-not-transient', resolver=how, attempt=k, reported=c), desc))
+    return out
+
+
+def mx_seq_cases():
+    for seq in (('error', 'error'), ('error', 'mx3'), ('a-error', 'a-only'), ('a-error', 'a-error', 'mx3'), ('error', 'error', 'error'),
+                ('mx3', 'error'), ('a-only', 'a-error')):
+        for gap in (1.0, 40.0, 400.0):
+            if seq[0] in ('mx3', 'a-only') and gap > 100:
+                continue            # beyond the ttl the cache has expired; covered by the single-attempt cases
+            yield (seq, gap, False)
+    for seq in (('mx3', 'mx3'), ('a-only', 'a-only', 'a-only'), ('error', 'error')):
+        yield (seq, 0.0, True)
+
+
 def mx_cases():
     for resolver in ('mx3', 'a-only', 'nothing', 'error', 'a-error'):
         for attempts in (0, 1, 2, 3):
@@ -476,6 +587,19 @@ def mx_cases():
 
 
 # ------------------------------------------------------------------ runner glue
+def conformance_diff(wc, script, w):
+    """the same script on real gevent sockets (real loop) must give what the in-memory run ``w`` gave"""
+    from worlds.relay_world import run_on_real_sockets
+    per_r, whole_r, acc_r = run_on_real_sockets(dict(wc, script=script))
+    per_v, whole_v = classify(w.results[0]['outcome'], w.results[0]['env'])
+    acc_v = set()
+    for p in w.peers:
+        acc_v |= set((a.decode('latin-1'), b.decode('latin-1')) for a, b in p.accepted())
+    if (per_r, whole_r, acc_r) != (per_v, whole_v, acc_v):
+        return 'script %r config %r: virtual (%r, %r, %r) real (%r, %r, %r)' % (script, wc, per_v, whole_v, sorted(acc_v), per_r, whole_r, sorted(acc_r))
+    return None
+
+
 def smtp_configs(tier):
     cfgs = []
     for lmtp in (False, True):
@@ -540,18 +664,12 @@ def run_config(cfg, tier, seed):
                 res.sample({'part': 'A', 'config': wc, 'script': script, 'result': repr(obs)[:300]})
             # conformance of the in-memory sockets: replay on real gevent sockets and compare
             if not wc.get('tls') and not wc.get('envelopes') and not wc.get('auth') and i % (23 if tier == 'quick' else 5) == 3:
-                from worlds.relay_world import run_on_real_sockets
-                per_r, whole_r, acc_r = run_on_real_sockets(dict(wc, script=script))
-                per_v, whole_v = classify(w.results[0]['outcome'], w.results[0]['env'])
-                acc_v = set()
-                for p in w.peers:
-                    acc_v |= set((a.decode('latin-1'), b.decode('latin-1')) for a, b in p.accepted())
                 res.traces_validated += 1
                 res.count('real_socket_replays')
-                if (per_r, whole_r, acc_r) != (per_v, whole_v, acc_v):
-                    res.violation({'part': 'conformance', 'kind': 'in-memory-socket-differs-from-real-socket'},
-                                  'script %r config %r: virtual (%r, %r, %r) real (%r, %r, %r)' % (script, wc, per_v, whole_v, sorted(acc_v), per_r, whole_r, sorted(acc_r)),
-                                  {'part': 'A', 'cfg': wc, 'script': script})
+                diff = conformance_diff(wc, script, w)
+                if diff:
+                    res.violation({'part': 'conformance', 'kind': 'in-memory-socket-differs-from-real-socket'}, diff,
+                                  {'part': 'A', 'cfg': wc, 'script': script, 'conformance': True})
     elif cfg['part'] == 'B':
         for i, case in enumerate(pipe_cases()):
             if i % cfg['of'] != cfg['k']:
@@ -584,6 +702,14 @@ def run_config(cfg, tier, seed):
             for sig, msg in vs:
                 res.violation(sig, msg, {'part': 'D', 'case': list(case)})
         res.sample({'part': 'D', 'case': ['mx3', 1, 'u@Example.com']})
+        for case in mx_seq_cases():
+            res.evaluations += 1
+            res.count('mx_sequence_cases')
+            res.interesting(('seq',) + case)
+            vs = judge_mx_seq(case)
+            res.outcome(('mx-seq', case, repr(vs)[:80]))
+            for sig, msg in vs:
+                res.violation(sig, msg, {'part': 'D', 'seq_case': [list(case[0]), case[1], case[2]]})
     return res.as_dict()
 
 
@@ -596,6 +722,10 @@ def vacuity(counters, tier):
 
 
 def replay(rep):
+    if rep['part'] == 'A' and rep.get('conformance'):
+        w = run_smtp(rep['cfg'], rep['script'])
+        diff = conformance_diff(rep['cfg'], rep['script'], w)
+        return (True, diff) if diff else (False, 'in-memory sockets and real sockets agree')
     if rep['part'] == 'A':
         w = run_smtp(rep['cfg'], rep['script'])
         vs = judge_smtp(rep['cfg'], rep['script'], w)
@@ -605,6 +735,9 @@ def replay(rep):
     elif rep['part'] == 'C':
         c = rep['case']
         vs = judge_http((tuple(c[0]), c[1], c[2]))
+    elif rep.get('seq_case'):
+        c = rep['seq_case']
+        vs = judge_mx_seq((tuple(c[0]), c[1], c[2]))
     else:
         vs = judge_mx(tuple(rep['case']))
     if vs:
